@@ -539,6 +539,11 @@ def Wiring.roundtrip (transposed : Bool) (w : Wiring) (children : List Nat) (sig
   let w1 := Wiring.empty.connectAll stored.reverse
   { w1 with out := fun s => if sigs.contains s then reorder (savedFor firing s) (w1.out s) else w1.out s }
 
+/-- the all-of trigger itself through a state round trip: its connections come back through the owner's parent
+(`Wiring.roundtrip`), what it has heard in the round under way travels in the channel's own state. `forget = true`:
+seeded change C02-14 (`__getstate__` stores an empty `received_signals`) -/
+def Acc.roundtrip (forget : Bool) (a : Acc) : Acc := if forget then { a with received := [] } else a
+
 /-! ## Part E — edits of a hand-wired graph between wiring and running: `replace_child`, `pull`
 
 Both put connection lists back after tearing them: `replace_child` via `copy_io` (which connects the replacement one
